@@ -275,7 +275,10 @@ class WorkerPool:
     """N harness processes, each reading JSON lines on stdin and answering one
     JSON line per request on stdout (same order)."""
 
-    def __init__(self, ctx, binary, n=None, args=None, env_extra=None):
+    def __init__(self, ctx, binary, n=None, args=None, env_extra=None, request_timeout=120):
+        self.request_timeout = request_timeout   # seconds one request may take before the worker is declared hung
+        self.waiting = {}                         # worker index -> time it started waiting for the current answer
+        self.hung = set()
         self.ctx = ctx
         self.n = n or NCPU
         self.binary = binary
@@ -351,7 +354,9 @@ class WorkerPool:
                         done = 0
                         died = False
                         for r in todo:
+                            self.waiting[i] = time.time()
                             line = p.stdout.readline()
+                            self.waiting[i] = None
                             if not line:
                                 died = True
                                 break
@@ -370,6 +375,14 @@ class WorkerPool:
                         except Exception:
                             pass
                         culprit = todo[done]
+                        if i in self.hung:
+                            self.hung.discard(i)
+                            with lock:
+                                on_result(culprit, {"ok": False, "fatal": True, "hang": True, "step": -1,
+                                                    "viol": ["the code under test did not return within %d s while executing this scenario (endless loop)" % self.request_timeout]})
+                            todo = todo[done + 1:]
+                            self.procs[i] = self._spawn(i)
+                            continue
                         if self._died_in_harness(i):
                             raise Undecided("the harness itself crashed (not the code under test): %s" % self._stderr_tail(i))
                         with lock:
@@ -384,6 +397,22 @@ class WorkerPool:
         ths = [threading.Thread(target=worker, args=(i,), daemon=True) for i in range(self.n)]
         for t in ths:
             t.start()
+        stop_watch = threading.Event()
+
+        def watchdog():
+            # a request that does not come back (endless loop in the code under test) must not hang the check
+            while not stop_watch.wait(1.0):
+                now = time.time()
+                for i, t0 in list(self.waiting.items()):
+                    if t0 and now - t0 > self.request_timeout:
+                        self.hung.add(i)
+                        self.waiting[i] = None
+                        try:
+                            self.procs[i].kill()
+                        except Exception:
+                            pass
+        wd = threading.Thread(target=watchdog, daemon=True)
+        wd.start()
 
         def put(item):
             while True:
@@ -409,6 +438,7 @@ class WorkerPool:
             put(None)
         for t in ths:
             t.join(timeout=7200)
+        stop_watch.set()
         if errors:
             raise errors[0] if isinstance(errors[0], Undecided) else Undecided("harness failure: %r" % (errors[0],))
 
